@@ -119,6 +119,22 @@ def stepLine (env : Env) (line : String) : Env × Option String :=
       match parseStyle (String.ofList (b.map Char.ofNat)) with
       | none => (env, some "ERR")
       | some cs => (env, some (styleDebugName cs))
+  | ["refok", r] =>
+    -- classify one extracted reference `kind:path` by the model's predicates
+    let ref : Option Ref :=
+      match r.splitOn ":" with
+      | "absCore" :: rest => some (.absCore (String.intercalate ":" rest))
+      | "absStd" :: rest => some (.absStd (String.intercalate ":" rest))
+      | "strumItem" :: rest => some (.strumItem (String.intercalate ":" rest))
+      | "hardStrum" :: rest => some (.hardStrum (String.intercalate ":" rest))
+      | "bare" :: rest => some (.bare (String.intercalate ":" rest))
+      | "macro" :: rest => some (.macroCall (String.intercalate ":" rest))
+      | "rel" :: rest => some (.rel (String.intercalate ":" rest))
+      | _ => none
+    match ref with
+    | none => (env, some "unknown-kind")
+    | some x => (env, some (if x.noStdOk && x.cratePathOk && x.shadowSafe then "ok" else
+        "bad:" ++ (if !x.noStdOk then "noStd " else "") ++ (if !x.cratePathOk then "cratePath " else "") ++ (if !x.shadowSafe then "shadow" else "")))
   | ["refs", dv] =>
     match deriveOfName dv with
     | none => (env, some "bad-line")
